@@ -364,6 +364,67 @@ func TestVerifC20(t *testing.T) {
 		})
 		r.EvalN(fmt.Sprintf("naf:w=%d", w), len(inputs))
 	}
+
+	// the same integers in OTHER CONTAINERS: n = 8*len(s)+1 for scalars of 1..64 bytes - a 256-bit integer with
+	// leading zero bytes (33..64 bytes, the DER-style 0x00 || x), shorter integers, and full-width longer ones.
+	// A recoding that refuses a length (panic) is within the statement; one that silently returns digits
+	// whose weighted sum is not the integer is not.
+	nOther := 0
+	for _, l := range []int{1, 2, 5, 16, 31, 33, 34, 40, 48, 63, 64} {
+		for w := 1; w <= 7; w++ {
+			for rep := 0; rep < hk.N(30, 300); rep++ {
+				sb := make([]byte, l)
+				switch {
+				case l > 32 && rep%3 != 2:
+					copy(sb[l-32:], inputs[rng.Intn(len(inputs))]) // a 256-bit integer behind leading zero bytes
+				default:
+					rng.Fill(sb)
+					if rep%5 == 0 {
+						sb[l-1] |= 1
+						sb[0] |= 0x80
+					}
+				}
+				n := 8*l + 1
+				out := make([]int, n)
+				p, _, _, _ := hk.Try(func() { DecomposeNAF(out, sb, n, w) })
+				if p {
+					r.Class("trivial:naf-length-refused")
+					continue
+				}
+				sum := new(big.Int)
+				bad := ""
+				lastNZ := -1000
+				for idx := n - 1; idx >= 0; idx-- {
+					sum.Lsh(sum, 1)
+					sum.Add(sum, big.NewInt(int64(out[idx])))
+				}
+				for idx := 0; idx < n; idx++ {
+					d := out[idx]
+					if d == 0 {
+						continue
+					}
+					if d%2 == 0 {
+						bad = "even-nonzero-digit"
+					}
+					if d >= 1<<uint(w) || d <= -(1<<uint(w)) {
+						bad = "digit-out-of-range"
+					}
+					if idx-lastNZ <= w {
+						bad = "nonzero-digits-too-close"
+					}
+					lastNZ = idx
+				}
+				if sum.Cmp(new(big.Int).SetBytes(sb)) != 0 {
+					bad = "weighted-sum-differs"
+				}
+				if bad != "" {
+					r.Violation(fmt.Sprintf("naf-%s:other-container:w=%d", bad, w), hk.D{"s": hk.Hex(sb), "n": n, "w": w})
+				}
+				nOther++
+			}
+		}
+	}
+	r.EvalN("naf:other-containers", nOther)
 }
 
 func min3(a, b int) int {
